@@ -392,8 +392,9 @@ def fix_starred_imports(source: str) -> str:
     if not template:
         return source
 
-    undefined_names = get_undefined_variables(source)
-    for name in undefined_names:
+    # A star import also rebinds names that are builtin, or that are bound earlier in the module,
+    # so every referenced name is traced, not only those that would otherwise be undefined.
+    for name in _get_referenced_names(root):
         if trace_result := trace_origin(name, source):
             if core.match_template(trace_result.ast, template):
                 starred_import_name_mapping[trace_result.ast].add(name)
